@@ -340,7 +340,9 @@ def image_paths(prog, rep):
                 continue
             a_ = [strip_refs(x) for x in fc[0][3]]
             s = [(None, a_)]
-            m = match(a_[2], ("call", "*ContiguousPixels::<'a, C, O>::new", "_", (P(1, "self"), "?size", ("const", 0), "?skip")))
+            m = match(a_[2], ("call", "*ContiguousPixels::<'a, C, O>::new", "_", ("?src", "?size", ("const", 0), "?skip")))
+            if m is not None and not (strip_refs(m["?src"]) == P(1, "self") or strip_refs(m["?src"]) == ("field", P(1, "self"), field_index(prog, IR, "data"))):
+                m = None
             is_size = lambda t: strip_refs(t) == size_f or match(strip_refs(t), ("call", "*OriginDimensions::size", "_", (P(1, "self"),))) is not None \
                 or match(strip_refs(t), ("call", "*OriginDimensions>::size", "_", (P(1, "self"),))) is not None
             mb = match(a_[1], ("call", "*Rectangle::new", "_", (("call", "*Point::zero", "_", ()), "?bs")))
